@@ -1,7 +1,9 @@
 (* Views engine — executable model of goa's result-type views.
 
      expr/result_type.go      Project / project / projectSingle / projectCollection /
-                              projectRecursive (the `seen` memo, keyed by the hash of the
+                              projectRecursive (result-type attributes, CollectionOf,
+                              ArrayOf / MapOf of result types, plain user types holding
+                              result types; the `seen` memo, keyed by the hash of the
                               attribute type and the view the attribute is rendered with)
      dsl/result_type.go       View / buildView (a view lists attributes of the type; a view
                               attribute may carry View("x"); else the `view` meta of the type
@@ -10,9 +12,12 @@
                               (new<T>View<V>, new<T><V>), Validate<T>View<V>, the viewed
                               result {Projected, View}, NewViewed<T> / New<T> (switch on the
                               view name, "" = "default", no default branch), Validate<T>
-                              (default branch: InvalidEnumValueError)
+                              (default branch: InvalidEnumValueError); below a container that
+                              is not itself a result type (array, map, plain user type) the
+                              generated validators and constructors are view-blind
      http/codegen             response encoder (sets goa-view unless the view is fixed in the
-                              design, picks the body constructor by view, no default branch),
+                              design, picks the body constructor by view, no default branch; the
+                              body types are expr.Project of the result type, one per view),
                               response decoder (reads goa-view, validates, rebuilds)
 
    Definitions only; proofs are in Lemmas.v, statements in Properties.v. *)
@@ -24,9 +29,12 @@ Definition name := string.
 
 (* ---------------------------------------------------------------- designs *)
 
-(* type of an attribute of a result type: anything without views below it (prim = stored
-   without a pointer when required), a result type, a CollectionOf(result type) *)
-Inductive atype := TLeaf (prim : bool) | TRes (t : name) | TColl (t : name).
+(* type of an attribute: anything without views below it (prim = stored without a pointer
+   when required), a result type, CollectionOf(result type), ArrayOf(result type),
+   MapOf(String, result type), a plain user type (which may hold any of these) *)
+Inductive atype :=
+| TLeaf (prim : bool) | TRes (t : name) | TColl (t : name)
+| TArr (t : name) | TMap (t : name) | TUser (u : name).
 
 Record attr := mkAttr { a_name : name; a_ty : atype; a_meta : option name; a_req : bool }.
 (* a_meta: View("x") written on the attribute inside the type definition *)
@@ -34,6 +42,7 @@ Record attr := mkAttr { a_name : name; a_ty : atype; a_meta : option name; a_req
 Record view := mkView { v_name : name; v_attrs : list (name * option name) }.
 (* (attribute, View("x") written on the attribute inside the view) *)
 
+(* a result type (r_views non-empty) or a plain user type (no views) *)
 Record rtype := mkRT { r_attrs : list attr; r_views : list view }.
 
 Definition env := list (name * rtype).
@@ -52,8 +61,8 @@ Definition find_attr (r : rtype) (a : name) : option attr := find_attr_in (r_att
 Fixpoint view_entry (l : list (name * option name)) (a : name) : option (option name) :=
   match l with [] => None | (b, ov) :: l' => if String.eqb b a then Some ov else view_entry l' a end.
 
-Definition in_view (w : view) (a : name) : bool :=
-  match view_entry (v_attrs w) a with Some _ => true | None => false end.
+Definition listed (l : list (name * option name)) (a : name) : bool :=
+  match view_entry l a with Some _ => true | None => false end.
 
 (* the view a nested result-type attribute is rendered with *)
 Definition nested_view (ov : option name) (a : attr) : name :=
@@ -65,9 +74,47 @@ Definition nested_view (ov : option name) (a : attr) : name :=
 (* "" means "default" wherever a view name is consumed at run time *)
 Definition norm (v : name) : name := if String.eqb v "" then "default" else v.
 
+(* A node of a projection: a result type under one of its views (false, t, v), or a plain
+   user type (true, u, v) where v is the view of the nearest enclosing result type (it plays
+   no role in what the node lists; expr.Project keys its memo with it). *)
+Definition nkey := (bool * name * name)%type.
+
+Inductive wrap := WNone | WColl | WArr | WMap.
+
+(* what an attribute points to from a node whose view is v, under the override ov of the
+   node's entry: nothing (leaf), or a node behind a wrapper. Overrides and type-level view
+   metas count for result types, collections, arrays and maps of result types; a plain user
+   type is always listed in full. *)
+Definition target (v : name) (ov : option name) (a : attr) : option (wrap * nkey) :=
+  match a_ty a with
+  | TLeaf _ => None
+  | TRes t => Some (WNone, (false, t, nested_view ov a))
+  | TColl t => Some (WColl, (false, t, nested_view ov a))
+  | TArr t => Some (WArr, (false, t, nested_view ov a))
+  | TMap t => Some (WMap, (false, t, nested_view ov a))
+  | TUser u => Some (WNone, (true, u, v))
+  end.
+
+(* the entries a node lists: the attributes of the view, or every attribute of a plain type *)
+Definition entries (e : env) (k : nkey) : option (rtype * list (name * option name)) :=
+  match k with
+  | (usr, t, v) =>
+    match find_type e t with
+    | None => None
+    | Some r =>
+      if usr then Some (r, map (fun a => (a_name a, None)) (r_attrs r))
+      else match find_view r v with Some w => Some (r, v_attrs w) | None => None end
+    end
+  end.
+
+Definition has_node (e : env) (k : nkey) : bool :=
+  match entries e k with Some _ => true | None => false end.
+
+Definition has_view (e : env) (t v : name) : bool := has_node e (false, t, v).
+
 (* rt.Validation.Required filtered by the view, in the order of the Required list *)
-Definition req_in_view (r : rtype) (w : view) : list name :=
-  map a_name (filter (fun a => a_req a && in_view w (a_name a)) (r_attrs r)).
+Definition req_in (usr : bool) (r : rtype) (l : list (name * option name)) : list name :=
+  if usr then [] else map a_name (filter (fun a => a_req a && listed l (a_name a)) (r_attrs r)).
 
 (* -------------------------------------------- projected types, unfolded (the spec) *)
 
@@ -75,47 +122,46 @@ Definition req_in_view (r : rtype) (w : view) : list name :=
 Inductive ptree :=
 | PLeaf
 | PObj (t v : name) (fs : pflds) (req : list name)
-| PColl (e : ptree)
+| PUser (u : name) (fs : pflds)
+| PColl (e : ptree) | PArr (e : ptree) | PMap (e : ptree)
 | PCut
 | PErr
 with pflds := PNil | PCons (a : name) (p : ptree) (r : pflds).
 
-Definition wrapc (c : bool) (p : ptree) : ptree := if c then PColl p else p.
+Definition wrapw (w : wrap) (p : ptree) : ptree :=
+  match w with WNone => p | WColl => PColl p | WArr => PArr p | WMap => PMap p end.
 
-(* fields of the projection of r under view entries l; rec projects a nested result type *)
-Fixpoint sfields (rec : name -> name -> ptree) (r : rtype) (l : list (name * option name)) : pflds :=
+Definition pnode (k : nkey) (fs : pflds) (req : list name) : ptree :=
+  match k with (usr, t, v) => if usr then PUser t fs else PObj t v fs req end.
+
+(* the projection of one attribute under a view entry *)
+Definition child (rec : nkey -> ptree) (v : name) (at_ : attr) (ov : option name) : ptree :=
+  match target v ov at_ with None => PLeaf | Some (w, k) => wrapw w (rec k) end.
+
+Fixpoint sfields (rec : nkey -> ptree) (r : rtype) (v : name) (l : list (name * option name)) : pflds :=
   match l with
   | [] => PNil
   | (a, ov) :: l' =>
     match find_attr r a with
-    | None => sfields rec r l'
-    | Some at_ =>
-      match a_ty at_ with
-      | TLeaf _ => PCons a PLeaf (sfields rec r l')
-      | TRes t' => PCons a (rec t' (nested_view ov at_)) (sfields rec r l')
-      | TColl t' => PCons a (PColl (rec t' (nested_view ov at_))) (sfields rec r l')
-      end
+    | None => sfields rec r v l'
+    | Some at_ => PCons a (child rec v at_ ov) (sfields rec r v l')
     end
   end.
 
 (* the projection the property asks for: the attributes listed in the view (that the type
-   has), nested result types and collections under their own view, recursively *)
-Fixpoint sproject (k : nat) (e : env) (t v : name) : ptree :=
+   has), nested result types — direct, in collections, arrays, maps, inside plain user types —
+   under their own view, recursively *)
+Fixpoint sproject (k : nat) (e : env) (n : nkey) : ptree :=
   match k with
   | 0 => PCut
   | S k' =>
-    match find_type e t with
+    match entries e n with
     | None => PErr
-    | Some r =>
-      match find_view r v with
-      | None => PErr
-      | Some w => PObj t v (sfields (sproject k' e) r (v_attrs w)) (req_in_view r w)
-      end
+    | Some (r, l) => pnode n (sfields (sproject k' e) r (snd n) l) (req_in (fst (fst n)) r l)
     end
   end.
 
-(* reading a projected node: its attribute names, one attribute, the projection of one
-   attribute of the type under a view entry *)
+(* reading a projected node *)
 Fixpoint pnames (fs : pflds) : list name :=
   match fs with PNil => [] | PCons a _ r => a :: pnames r end.
 
@@ -125,62 +171,60 @@ Fixpoint pfind (fs : pflds) (a : name) : option ptree :=
 Definition has_attr (r : rtype) (a : name) : bool :=
   match find_attr r a with Some _ => true | None => false end.
 
-Definition child (rec : name -> name -> ptree) (at_ : attr) (ov : option name) : ptree :=
-  match a_ty at_ with
-  | TLeaf _ => PLeaf
-  | TRes t' => rec t' (nested_view ov at_)
-  | TColl t' => PColl (rec t' (nested_view ov at_))
-  end.
-
 (* ------------------------------------- expr.Project, with its memo (the implementation) *)
 
 (* The value expr.Project builds is a graph: a memo hit returns the attribute created
    earlier (possibly still being filled in: cycles). FDef id = attribute allocated by this
    call and registered in the memo under id; FRef id = the attribute registered as id. *)
-Inductive itree := IObj (t v : name) (fs : iflds) (req : list name)
+Inductive itree := INode (k : nkey) (fs : iflds) (req : list name)
 with iflds :=
 | FNil
 | FLeafC (a : name) (r : iflds)
-| FDefC (a : name) (id : nat) (coll : bool) (ty : itree) (r : iflds)
-| FRefC (a : name) (id : nat) (r : iflds).
+| FDefC (a : name) (id : nat) (w : wrap) (ty : itree) (r : iflds)
+| FRefC (a : name) (id : nat) (w : wrap) (r : iflds).
 
-Definition key := (bool * name * name)%type.   (* collection?, type name, view *)
+(* memo key: hash of the attribute type (0 result type — also the element of an array or a
+   map —, 1 collection, 2 plain user type) and the view *)
+Definition mkey := (nat * name * name)%type.
 
-Definition key_eqb (k1 k2 : key) : bool :=
-  match k1, k2 with (c1, t1, v1), (c2, t2, v2) => Bool.eqb c1 c2 && String.eqb t1 t2 && String.eqb v1 v2 end.
+Definition mkey_of (w : wrap) (k : nkey) : mkey :=
+  match k with (usr, t, v) => ((if usr then 2 else match w with WColl => 1 | _ => 0 end), t, v) end.
 
-Record st := mkSt { next : nat; memo : list (key * nat) }.
+Definition mkey_eqb (k1 k2 : mkey) : bool :=
+  match k1, k2 with (c1, t1, v1), (c2, t2, v2) => Nat.eqb c1 c2 && String.eqb t1 t2 && String.eqb v1 v2 end.
 
-Fixpoint lookup (m : list (key * nat)) (k : key) : option nat :=
-  match m with [] => None | (k', id) :: m' => if key_eqb k' k then Some id else lookup m' k end.
+Record st := mkSt { next : nat; memo : list (mkey * nat) }.
+
+Fixpoint lookup (m : list (mkey * nat)) (k : mkey) : option nat :=
+  match m with [] => None | (k', id) :: m' => if mkey_eqb k' k then Some id else lookup m' k end.
 
 Inductive res (A : Type) := Ok (a : A) | Err | Out.
 Arguments Ok {A} a. Arguments Err {A}. Arguments Out {A}.
 
 Definition init : st := mkSt 0 [].
 
-(* projectRecursive on one attribute of result type (c, t') rendered with view u *)
-Definition iattr (rec : name -> name -> st -> res (itree * st)) (c : bool) (t' u : name) (s : st)
+(* projectRecursive on one attribute pointing to node k behind wrapper w *)
+Definition iattr (rec : nkey -> st -> res (itree * st)) (w : wrap) (k : nkey) (s : st)
   : res ((nat * option itree) * st) :=
-  match lookup (memo s) (c, t', u) with
+  match lookup (memo s) (mkey_of w k) with
   | Some id => Ok ((id, None), s)
   | None =>
     let id := next s in
-    match rec t' u (mkSt (S id) (((c, t', u), id) :: memo s)) with
+    match rec k (mkSt (S id) ((mkey_of w k, id) :: memo s)) with
     | Ok (tr, s2) => Ok ((id, Some tr), s2)
     | Err => Err
     | Out => Out
     end
   end.
 
-(* one nested result-type attribute a of the view being projected, then the rest (cont) *)
-Definition ifield_nested (rec : name -> name -> st -> res (itree * st)) (cont : st -> res (iflds * st))
-           (a : name) (c : bool) (t' u : name) (s : st) : res (iflds * st) :=
-  match iattr rec c t' u s with
+(* one attribute a that points to a node, then the rest (cont) *)
+Definition ifield_nested (rec : nkey -> st -> res (itree * st)) (cont : st -> res (iflds * st))
+           (a : name) (w : wrap) (k : nkey) (s : st) : res (iflds * st) :=
+  match iattr rec w k s with
   | Ok ((id, Some tr), s2) =>
-    match cont s2 with Ok (fs, s3) => Ok (FDefC a id c tr fs, s3) | Err => Err | Out => Out end
+    match cont s2 with Ok (fs, s3) => Ok (FDefC a id w tr fs, s3) | Err => Err | Out => Out end
   | Ok ((id, None), s2) =>
-    match cont s2 with Ok (fs, s3) => Ok (FRefC a id fs, s3) | Err => Err | Out => Out end
+    match cont s2 with Ok (fs, s3) => Ok (FRefC a id w fs, s3) | Err => Err | Out => Out end
   | Err => Err
   | Out => Out
   end.
@@ -188,58 +232,54 @@ Definition ifield_nested (rec : name -> name -> st -> res (itree * st)) (cont : 
 Definition ifield_leaf (cont : st -> res (iflds * st)) (a : name) (s : st) : res (iflds * st) :=
   match cont s with Ok (fs, s3) => Ok (FLeafC a fs, s3) | Err => Err | Out => Out end.
 
-(* the loop of projectSingle over the attributes the view lists, in the view's order *)
-Fixpoint ifields (rec : name -> name -> st -> res (itree * st)) (r : rtype)
+(* the loop over the entries of a node (the attributes the view lists, in the view's order;
+   the attributes of a plain user type) *)
+Fixpoint ifields (rec : nkey -> st -> res (itree * st)) (r : rtype) (v : name)
          (l : list (name * option name)) (s : st) : res (iflds * st) :=
   match l with
   | [] => Ok (FNil, s)
   | (a, ov) :: l' =>
     match find_attr r a with
-    | None => ifields rec r l' s
+    | None => ifields rec r v l' s
     | Some at_ =>
-      match a_ty at_ with
-      | TLeaf _ => ifield_leaf (ifields rec r l') a s
-      | TRes t' => ifield_nested rec (ifields rec r l') a false t' (nested_view ov at_) s
-      | TColl t' => ifield_nested rec (ifields rec r l') a true t' (nested_view ov at_) s
+      match target v ov at_ with
+      | None => ifield_leaf (ifields rec r v l') a s
+      | Some (w, k) => ifield_nested rec (ifields rec r v l') a w k s
       end
     end
   end.
 
-(* projectSingle; fuel bounds the recursion depth *)
-Fixpoint iproj (fuel : nat) (e : env) (t v : name) (s : st) : res (itree * st) :=
+(* projectSingle / the object branch of projectRecursive; fuel bounds the recursion depth *)
+Fixpoint iproj (fuel : nat) (e : env) (n : nkey) (s : st) : res (itree * st) :=
   match fuel with
   | 0 => Out
   | S f =>
-    match find_type e t with
+    match entries e n with
     | None => Err
-    | Some r =>
-      match find_view r v with
-      | None => Err
-      | Some w =>
-        match ifields (iproj f e) r (v_attrs w) s with
-        | Ok (fs, s') => Ok (IObj t v fs (req_in_view r w), s')
-        | Err => Err
-        | Out => Out
-        end
+    | Some (r, l) =>
+      match ifields (iproj f e) r (snd n) l s with
+      | Ok (fs, s') => Ok (INode n fs (req_in (fst (fst n)) r l), s')
+      | Err => Err
+      | Out => Out
       end
     end
   end.
 
-(* expr.Project(rt, view) on a result type (c = false) or a collection of it (c = true):
-   a fresh memo; projectCollection projects the element type with the same view *)
+(* expr.Project(rt, view): a fresh memo (projectCollection projects the element type with
+   the same view) *)
 Definition iproject (fuel : nat) (e : env) (t v : name) : res itree :=
-  match iproj fuel e t v init with Ok (tr, _) => Ok tr | Err => Err | Out => Out end.
+  match iproj fuel e (false, t, v) init with Ok (tr, _) => Ok tr | Err => Err | Out => Out end.
 
 (* looking an attribute id up in the graph *)
-Fixpoint find_def (id : nat) (tr : itree) : option (bool * itree) :=
-  match tr with IObj _ _ fs _ => find_def_f id fs end
-with find_def_f (id : nat) (fs : iflds) : option (bool * itree) :=
+Fixpoint find_def (id : nat) (tr : itree) : option itree :=
+  match tr with INode _ fs _ => find_def_f id fs end
+with find_def_f (id : nat) (fs : iflds) : option itree :=
   match fs with
   | FNil => None
   | FLeafC _ r => find_def_f id r
-  | FRefC _ _ r => find_def_f id r
-  | FDefC _ id' c ty r =>
-    if Nat.eqb id' id then Some (c, ty)
+  | FRefC _ _ _ r => find_def_f id r
+  | FDefC _ id' _ ty r =>
+    if Nat.eqb id' id then Some ty
     else match find_def id ty with Some x => Some x | None => find_def_f id r end
   end.
 
@@ -248,10 +288,10 @@ Fixpoint unfold_f (uf : itree -> ptree) (root : itree) (fs : iflds) : pflds :=
   match fs with
   | FNil => PNil
   | FLeafC a r => PCons a PLeaf (unfold_f uf root r)
-  | FDefC a _ c ty r => PCons a (wrapc c (uf ty)) (unfold_f uf root r)
-  | FRefC a id r =>
+  | FDefC a _ w ty r => PCons a (wrapw w (uf ty)) (unfold_f uf root r)
+  | FRefC a id w r =>
     PCons a (match find_def id root with
-             | Some (c, ty) => wrapc c (uf ty)
+             | Some ty => wrapw w (uf ty)
              | None => PErr
              end) (unfold_f uf root r)
   end.
@@ -259,76 +299,68 @@ Fixpoint unfold_f (uf : itree -> ptree) (root : itree) (fs : iflds) : pflds :=
 Fixpoint unfold (k : nat) (root : itree) (tr : itree) : ptree :=
   match k with
   | 0 => PCut
-  | S k' => match tr with IObj t v fs req => PObj t v (unfold_f (unfold k' root) root fs) req end
+  | S k' => match tr with INode n fs req => pnode n (unfold_f (unfold k' root) root fs) req end
   end.
 
-(* number of memo keys a design can ever produce *)
-Definition entry_keys (r : rtype) (l : list (name * option name)) : list key :=
-  flat_map (fun '(a, ov) =>
-    match find_attr r a with
-    | None => []
-    | Some at_ =>
-      match a_ty at_ with
-      | TLeaf _ => []
-      | TRes t' => [(false, t', nested_view ov at_)]
-      | TColl t' => [(true, t', nested_view ov at_)]
-      end
-    end) l.
+(* every memo key a design can produce: kinds x type names referred to x view names in use *)
+Definition attr_targets (a : attr) : list name :=
+  match a_ty a with TLeaf _ => [] | TRes t => [t] | TColl t => [t] | TArr t => [t] | TMap t => [t] | TUser u => [u] end.
 
-Definition all_keys (e : env) : list key :=
-  flat_map (fun '(_, r) => flat_map (fun w => entry_keys r (v_attrs w)) (r_views r)) e.
+Definition attr_views (a : attr) : list name :=
+  match a_meta a with Some v => [v] | None => [] end.
+
+Definition entry_views (en : name * option name) : list name :=
+  match snd en with Some v => [v] | None => [] end.
+
+Definition target_names (e : env) : list name :=
+  flat_map (fun '(_, r) => flat_map attr_targets (r_attrs r)) e.
+
+Definition view_names (e : env) : list name :=
+  "default" :: flat_map (fun '(_, r) =>
+     flat_map attr_views (r_attrs r) ++
+     flat_map (fun w => v_name w :: flat_map entry_views (v_attrs w)) (r_views r))%list e.
+
+Definition all_keys (e : env) : list mkey :=
+  list_prod (list_prod [0; 1; 2] (target_names e)) (view_names e).
 
 Definition fuel_bound (e : env) : nat := S (S (List.length (all_keys e))).
 
 (* ------------------------------------------------------------------- values *)
 
 (* A result value as the service method returns it / as it appears in a JSON body / as
-   the client hands it back: leaves are opaque (numbered by the harness), an object
-   holds the attributes that are set. *)
+   the client hands it back: leaves are opaque (numbered by the harness), an object holds
+   the attributes that are set, a list holds the elements of a collection / array / map. *)
 Inductive val := VLeaf (n : nat) | VObj (fs : vflds) | VList (l : vlist)
 with vflds := VFNil | VFCons (a : name) (x : val) (r : vflds)
 with vlist := VLNil | VLCons (x : val) (r : vlist).
 
-Definition has_view (e : env) (t v : name) : bool :=
-  match find_type e t with
-  | Some r => match find_view r v with Some _ => true | None => false end
-  | None => false
-  end.
-
-(* new<T>View<V> then the response body constructor: keep the attributes the view lists,
-   nested result types (and the elements of collections) under their own view *)
-Fixpoint restrict (e : env) (t v : name) (x : val) : val :=
+(* new<T>View<V> then the response body constructor (whose type is expr.Project of the
+   result type): keep the attributes the node lists, nested nodes under their own view *)
+Fixpoint restrict (e : env) (k : nkey) (x : val) : val :=
   match x with
   | VLeaf n => VLeaf n
-  | VList l => VList (restrict_l e t v l)
+  | VList l => VList (restrict_l e k l)
   | VObj fs =>
-    match find_type e t with
+    match entries e k with
     | None => VObj VFNil
-    | Some r =>
-      match find_view r v with
-      | None => VObj VFNil
-      | Some w => VObj (restrict_f e r w fs)
-      end
+    | Some (r, l) => VObj (restrict_f e r (snd k) l fs)
     end
   end
-with restrict_f (e : env) (r : rtype) (w : view) (fs : vflds) : vflds :=
+with restrict_f (e : env) (r : rtype) (v : name) (l : list (name * option name)) (fs : vflds) : vflds :=
   match fs with
   | VFNil => VFNil
   | VFCons a x rest =>
-    match view_entry (v_attrs w) a, find_attr r a with
+    match view_entry l a, find_attr r a with
     | Some ov, Some at_ =>
-      VFCons a (match a_ty at_ with
-                | TLeaf _ => x
-                | TRes t' => restrict e t' (nested_view ov at_) x
-                | TColl t' => restrict e t' (nested_view ov at_) x
-                end) (restrict_f e r w rest)
-    | _, _ => restrict_f e r w rest
+      VFCons a (match target v ov at_ with None => x | Some (_, k') => restrict e k' x end)
+             (restrict_f e r v l rest)
+    | _, _ => restrict_f e r v l rest
     end
   end
-with restrict_l (e : env) (t v : name) (l : vlist) : vlist :=
+with restrict_l (e : env) (k : nkey) (l : vlist) : vlist :=
   match l with
   | VLNil => VLNil
-  | VLCons x r => VLCons (restrict e t v x) (restrict_l e t v r)
+  | VLCons x r => VLCons (restrict e k x) (restrict_l e k r)
   end.
 
 (* ------------------------------------------------------------ generated server *)
@@ -345,9 +377,9 @@ Inductive sresp := SResp (hdr : option name) (body : val) | SPanic.
    value: header "" and an empty list. *)
 Definition server_respond (e : env) (c : bool) (t : name) (fixed : option name) (chosen : name) (x : val) : sresp :=
   match fixed with
-  | Some f => if has_view e t (norm f) then SResp None (restrict e t (norm f) x) else SPanic
+  | Some f => if has_view e t (norm f) then SResp None (restrict e (false, t, norm f) x) else SPanic
   | None =>
-    if has_view e t (norm chosen) then SResp (Some (norm chosen)) (restrict e t (norm chosen) x)
+    if has_view e t (norm chosen) then SResp (Some (norm chosen)) (restrict e (false, t, norm chosen) x)
     else if c then SResp (Some "") (VList VLNil) else SPanic
   end.
 
@@ -359,76 +391,123 @@ Fixpoint has_field (fs : vflds) (a : name) : bool :=
 (* the required attributes whose absence the client can see: the response body is first
    converted to the projected type, and that conversion allocates required arrays / maps
    (make([]T, len(nil))), so their absence goes unnoticed *)
-Definition allocated (ty : atype) : bool := match ty with TLeaf false => true | _ => false end.
+Definition allocated (ty : atype) : bool :=
+  match ty with TLeaf false => true | TArr _ => true | TMap _ => true | _ => false end.
 
-Definition req_checked (r : rtype) (w : view) : list name :=
-  map a_name (filter (fun a => a_req a && in_view w (a_name a) && negb (allocated (a_ty a))) (r_attrs r)).
+Definition req_checked (usr : bool) (r : rtype) (l : list (name * option name)) : list name :=
+  if usr then []
+  else map a_name (filter (fun a => a_req a && listed l (a_name a) && negb (allocated (a_ty a))) (r_attrs r)).
 
-(* Validate<T>View<V>: the required attributes that the view lists are present; nested
-   result types that are present validate under their own view *)
-Fixpoint validate (e : env) (t v : name) (x : val) : bool :=
+(* the validator the generated code calls for an attribute: result types and collections
+   listed by a result type validate under their own view; below an array or a plain user type
+   the validation code is view-blind: Validate<T>View, the default-view one; the values of a
+   map are not validated at all *)
+Definition vtarget (usr : bool) (v : name) (ov : option name) (a : attr) : option nkey :=
+  match a_ty a with
+  | TLeaf _ => None
+  | TRes t => Some (false, t, if usr then "default" else nested_view ov a)
+  | TColl t => Some (false, t, if usr then "default" else nested_view ov a)
+  | TArr t => Some (false, t, "default")
+  | TMap t => None
+  | TUser u => Some (true, u, v)
+  end.
+
+Fixpoint validate (e : env) (k : nkey) (x : val) : bool :=
   match x with
   | VLeaf _ => true
-  | VList l => validate_l e t v l
+  | VList l => validate_l e k l
   | VObj fs =>
-    match find_type e t with
+    match entries e k with
     | None => false
-    | Some r =>
-      match find_view r v with
-      | None => false
-      | Some w => forallb (has_field fs) (req_checked r w) && validate_f e r w fs
-      end
+    | Some (r, l) =>
+      forallb (has_field fs) (req_checked (fst (fst k)) r l) && validate_f e (fst (fst k)) r (snd k) l fs
     end
   end
-with validate_f (e : env) (r : rtype) (w : view) (fs : vflds) : bool :=
+with validate_f (e : env) (usr : bool) (r : rtype) (v : name) (l : list (name * option name)) (fs : vflds) : bool :=
   match fs with
   | VFNil => true
   | VFCons a x rest =>
-    match view_entry (v_attrs w) a, find_attr r a with
+    match view_entry l a, find_attr r a with
     | Some ov, Some at_ =>
-      match a_ty at_ with
-      | TLeaf _ => true
-      | TRes t' => validate e t' (nested_view ov at_) x
-      | TColl t' => validate e t' (nested_view ov at_) x
-      end && validate_f e r w rest
-    | _, _ => validate_f e r w rest
+      match vtarget usr v ov at_ with None => true | Some k' => validate e k' x end
+      && validate_f e usr r v l rest
+    | _, _ => validate_f e usr r v l rest
     end
   end
-with validate_l (e : env) (t v : name) (l : vlist) : bool :=
+with validate_l (e : env) (k : nkey) (l : vlist) : bool :=
   match l with
   | VLNil => true
-  | VLCons x r => validate e t v x && validate_l e t v r
+  | VLCons x r => validate e k x && validate_l e k r
   end.
 
-(* new<T><V>: plain attributes are copied when the view lists them; a result-type
-   attribute that is present is rebuilt under the view the parent's view entry names
-   ("default" when the parent's view does not list it) *)
+(* the generic transform used below arrays, maps and plain user types: copies what is there,
+   dereferences every required primitive attribute of the types it walks (views play no
+   role) — true when nothing it dereferences is missing *)
+Definition gtarget (a : attr) : option nkey :=
+  match a_ty a with
+  | TLeaf _ => None
+  | TRes t => Some (false, t, "default") | TColl t => Some (false, t, "default")
+  | TArr t => Some (false, t, "default") | TMap t => Some (false, t, "default")
+  | TUser u => Some (true, u, "default")
+  end.
+
+Definition deref (r : rtype) : list name :=
+  map a_name (filter (fun a => a_req a && match a_ty a with TLeaf true => true | _ => false end) (r_attrs r)).
+
+Fixpoint gen_ok (e : env) (t : name) (x : val) : bool :=
+  match x with
+  | VLeaf _ => true
+  | VList l => gen_ok_l e t l
+  | VObj fs =>
+    match find_type e t with
+    | None => true
+    | Some r => forallb (has_field fs) (deref r) && gen_ok_f e r fs
+    end
+  end
+with gen_ok_f (e : env) (r : rtype) (fs : vflds) : bool :=
+  match fs with
+  | VFNil => true
+  | VFCons a x rest =>
+    match find_attr r a with
+    | Some at_ => match gtarget at_ with None => true | Some (_, t', _) => gen_ok e t' x end && gen_ok_f e r rest
+    | None => gen_ok_f e r rest
+    end
+  end
+with gen_ok_l (e : env) (t : name) (l : vlist) : bool :=
+  match l with
+  | VLNil => true
+  | VLCons x r => gen_ok e t x && gen_ok_l e t r
+  end.
+
+(* new<T><V>: plain attributes, arrays, maps and plain user types are copied when the view
+   lists them (the latter three by the generic transform); a result-type or collection
+   attribute that is present is rebuilt under the view the parent's entry names ("default"
+   when the parent's view does not list it) *)
+Definition direct (ty : atype) : option name :=
+  match ty with TRes t => Some t | TColl t => Some t | _ => None end.
+
 Fixpoint rebuild (e : env) (t v : name) (x : val) : val :=
   match x with
   | VLeaf n => VLeaf n
   | VList l => VList (rebuild_l e t v l)
   | VObj fs =>
-    match find_type e t with
+    match entries e (false, t, v) with
     | None => VObj VFNil
-    | Some r =>
-      match find_view r v with
-      | None => VObj VFNil
-      | Some w => VObj (rebuild_f e r w fs)
-      end
+    | Some (r, l) => VObj (rebuild_f e r l fs)
     end
   end
-with rebuild_f (e : env) (r : rtype) (w : view) (fs : vflds) : vflds :=
+with rebuild_f (e : env) (r : rtype) (l : list (name * option name)) (fs : vflds) : vflds :=
   match fs with
   | VFNil => VFNil
   | VFCons a x rest =>
     match find_attr r a with
-    | None => rebuild_f e r w rest
+    | None => rebuild_f e r l rest
     | Some at_ =>
-      let u := match view_entry (v_attrs w) a with Some ov => nested_view ov at_ | None => "default" end in
-      match a_ty at_ with
-      | TLeaf _ => if in_view w a then VFCons a x (rebuild_f e r w rest) else rebuild_f e r w rest
-      | TRes t' => VFCons a (rebuild e t' u x) (rebuild_f e r w rest)
-      | TColl t' => VFCons a (rebuild e t' u x) (rebuild_f e r w rest)
+      match direct (a_ty at_) with
+      | Some t' =>
+        let u := match view_entry l a with Some ov => nested_view ov at_ | None => "default" end in
+        VFCons a (rebuild e t' u x) (rebuild_f e r l rest)
+      | None => if listed l a then VFCons a x (rebuild_f e r l rest) else rebuild_f e r l rest
       end
     end
   end
@@ -438,14 +517,50 @@ with rebuild_l (e : env) (t v : name) (l : vlist) : vlist :=
   | VLCons x r => VLCons (rebuild e t v x) (rebuild_l e t v r)
   end.
 
-Inductive cres := COk (x : val) | CErr.
+(* no nil dereference while rebuilding *)
+Fixpoint rebuild_ok (e : env) (t v : name) (x : val) : bool :=
+  match x with
+  | VLeaf _ => true
+  | VList l => rebuild_ok_l e t v l
+  | VObj fs =>
+    match entries e (false, t, v) with
+    | None => true
+    | Some (r, l) => rebuild_ok_f e r l fs
+    end
+  end
+with rebuild_ok_f (e : env) (r : rtype) (l : list (name * option name)) (fs : vflds) : bool :=
+  match fs with
+  | VFNil => true
+  | VFCons a x rest =>
+    match find_attr r a with
+    | None => rebuild_ok_f e r l rest
+    | Some at_ =>
+      match direct (a_ty at_) with
+      | Some t' =>
+        let u := match view_entry l a with Some ov => nested_view ov at_ | None => "default" end in
+        rebuild_ok e t' u x && rebuild_ok_f e r l rest
+      | None =>
+        (if listed l a then match gtarget at_ with None => true | Some (_, t', _) => gen_ok e t' x end else true)
+        && rebuild_ok_f e r l rest
+      end
+    end
+  end
+with rebuild_ok_l (e : env) (t v : name) (l : vlist) : bool :=
+  match l with
+  | VLNil => true
+  | VLCons x r => rebuild_ok e t v x && rebuild_ok_l e t v r
+  end.
+
+Inductive cres := COk (x : val) | CErr | CPanic.
 
 (* the response decoder: view = the one fixed in the design, else the goa-view header
    ("" when absent); Validate<T> rejects names the type does not define *)
 Definition client_decode (e : env) (t : name) (fixed : option name) (hdr : option name) (body : val) : cres :=
   let v := norm (match fixed with Some f => f | None => match hdr with Some h => h | None => "" end end) in
   if has_view e t v then
-    if validate e t v body then COk (rebuild e t v body) else CErr
+    if validate e (false, t, v) body then
+      if rebuild_ok e t v body then COk (rebuild e t v body) else CPanic
+    else CErr
   else CErr.
 
 (* ---------------------------------------- what the property talks about (for statements) *)
@@ -466,12 +581,7 @@ with full_valid_f (e : env) (r : rtype) (fs : vflds) : bool :=
   | VFNil => true
   | VFCons a x rest =>
     match find_attr r a with
-    | Some at_ =>
-      match a_ty at_ with
-      | TLeaf _ => true
-      | TRes t' => full_valid e t' x
-      | TColl t' => full_valid e t' x
-      end && full_valid_f e r rest
+    | Some at_ => match gtarget at_ with None => true | Some (_, t', _) => full_valid e t' x end && full_valid_f e r rest
     | None => full_valid_f e r rest
     end
   end
@@ -481,55 +591,62 @@ with full_valid_l (e : env) (t : name) (l : vlist) : bool :=
   | VLCons x r => full_valid e t x && full_valid_l e t r
   end.
 
-(* every key of x, at every depth, is an attribute of the selected view *)
-Fixpoint conforms (e : env) (t v : name) (x : val) : bool :=
+(* every key of x, at every depth, is an attribute the node lists *)
+Fixpoint conforms (e : env) (k : nkey) (x : val) : bool :=
   match x with
   | VLeaf _ => true
-  | VList l => conforms_l e t v l
+  | VList l => conforms_l e k l
   | VObj fs =>
-    match find_type e t with
+    match entries e k with
     | None => false
-    | Some r =>
-      match find_view r v with
-      | None => false
-      | Some w => conforms_f e r w fs
-      end
+    | Some (r, l) => conforms_f e r (snd k) l fs
     end
   end
-with conforms_f (e : env) (r : rtype) (w : view) (fs : vflds) : bool :=
+with conforms_f (e : env) (r : rtype) (v : name) (l : list (name * option name)) (fs : vflds) : bool :=
   match fs with
   | VFNil => true
   | VFCons a x rest =>
-    match view_entry (v_attrs w) a, find_attr r a with
+    match view_entry l a, find_attr r a with
     | Some ov, Some at_ =>
-      match a_ty at_ with
-      | TLeaf _ => true
-      | TRes t' => conforms e t' (nested_view ov at_) x
-      | TColl t' => conforms e t' (nested_view ov at_) x
-      end && conforms_f e r w rest
+      match target v ov at_ with None => true | Some (_, k') => conforms e k' x end
+      && conforms_f e r v l rest
     | _, _ => false
     end
   end
-with conforms_l (e : env) (t v : name) (l : vlist) : bool :=
+with conforms_l (e : env) (k : nkey) (l : vlist) : bool :=
   match l with
   | VLNil => true
-  | VLCons x r => conforms e t v x && conforms_l e t v r
+  | VLCons x r => conforms e k x && conforms_l e k r
   end.
 
 Fixpoint keys (fs : vflds) : list name :=
   match fs with VFNil => [] | VFCons a _ r => a :: keys r end.
 
 (* nested views name views that exist, nested types exist (what the DSL validates) *)
-Definition closed_entry (e : env) (r : rtype) (en : name * option name) : bool :=
+Definition closed_entry (e : env) (r : rtype) (v : name) (en : name * option name) : bool :=
   match find_attr r (fst en) with
   | None => true
-  | Some at_ =>
-    match a_ty at_ with
-    | TLeaf _ => true
-    | TRes t' => has_view e t' (nested_view (snd en) at_)
-    | TColl t' => has_view e t' (nested_view (snd en) at_)
-    end
+  | Some at_ => match target v (snd en) at_ with None => true | Some (_, k) => has_node e k end
   end.
 
-Definition closed (e : env) : bool :=
-  forallb (fun '(_, r) => forallb (fun w => forallb (closed_entry e r) (v_attrs w)) (r_views r)) e.
+Definition closed_type (e : env) (r : rtype) : bool :=
+  forallb (fun w => forallb (closed_entry e r (v_name w)) (v_attrs w)) (r_views r) &&
+  forallb (fun a => closed_entry e r "default" (a_name a, None)) (r_attrs r) &&
+  (* every type an attribute refers to exists; result types define "default" *)
+  forallb (fun a => match gtarget a with None => true | Some k => has_node e k end) (r_attrs r).
+
+Definition closed (e : env) : bool := forallb (fun '(_, r) => closed_type e r) e.
+
+(* the envelope in which view-blind validation below containers cannot be observed: the
+   design has no array / map / plain-user-type attribute, or every view lists the required
+   attributes of its type *)
+Definition is_container (ty : atype) : bool :=
+  match ty with TArr _ => true | TMap _ => true | TUser _ => true | _ => false end.
+
+Definition no_containers (e : env) : bool :=
+  forallb (fun '(_, r) => forallb (fun a => negb (is_container (a_ty a))) (r_attrs r)) e.
+
+Definition req_everywhere (e : env) : bool :=
+  forallb (fun '(_, r) => forallb (fun w => forallb (fun a => negb (a_req a) || listed (v_attrs w) (a_name a)) (r_attrs r)) (r_views r)) e.
+
+Definition view_blind_safe (e : env) : bool := no_containers e || req_everywhere e.
